@@ -1,10 +1,17 @@
 #!/usr/bin/env bash
 # tools/seed_process.sh <name> <check> [<check> ...]   confirm a candidate seeded change in /tmp/seedwork/<name> in a scratch
-# worktree (seed_confirm.sh) and, when confirmed, run the quick checks against it (seed_try.sh). Log: /tmp/seedwork/<name>/result.log
+# worktree (seed_confirm.sh; skipped when an earlier run already confirmed it) and, when confirmed, run the quick checks against it
+# (seed_try.sh). Log: /tmp/seedwork/<name>/result.log
 set -u
 NAME="$1"; shift
 D=/tmp/seedwork/$NAME
 T="$(cd "$(dirname "${BASH_SOURCE[0]}")" && pwd)"
+if grep -q "^CONFIRMED $NAME" "$D/result.log" 2>/dev/null; then
+    grep -E "with change|without change|^CONFIRMED" "$D/result.log" > "$D/result.log.new"; mv "$D/result.log.new" "$D/result.log"
+    cat "$D/result.log"
+    "$T/seed_try.sh" "$D/patch.diff" "$@" 2>&1 | grep -v "conda" | tee -a "$D/result.log"
+    exit 0
+fi
 {
   "$T/seed_confirm.sh" "$D" "$NAME"
   if [ $? -eq 0 ]; then "$T/seed_try.sh" "$D/patch.diff" "$@"; fi
